@@ -92,14 +92,24 @@ func WriteBeforeRead(prog *load.Program, fn *ssa.Function, g *ssa.Global) Result
 	res := Result{Name: fmt.Sprintf("%s/no-carried-state:%s", fnKey(fn), g.Name()), Func: fnKey(fn), Pos: prog.Pos(fn.Pos())}
 	a := &accessSummary{g: g, memo: map[*ssa.Function]bool{}, open: map[*ssa.Function]bool{}}
 	found := 0
+	var headers []*ssa.BasicBlock
 	for _, h := range fn.Blocks {
-		isHeader := false
 		for _, p := range h.Preds {
 			if h.Dominates(p) {
-				isHeader = true
+				headers = append(headers, h)
+				break
 			}
 		}
-		if !isHeader {
+	}
+	for _, h := range headers {
+		// only outermost loops: an inner loop runs inside one iteration of the outer one
+		nested := false
+		for _, o := range headers {
+			if o != h && loopBody(o)[h] {
+				nested = true
+			}
+		}
+		if nested {
 			continue
 		}
 		body := loopBody(h)
